@@ -22,7 +22,8 @@ def classes():
             if inspect.isclass(c) and getattr(c, '__module__', '').startswith('pyvaporation'): _CLS.setdefault(n, c)
             elif inspect.isfunction(c) and getattr(c, '__module__', '').startswith('pyvaporation'):
                 _CLS.setdefault(c.__module__.split('.')[-1] + '.py:' + n, c)
-                _CLS.setdefault('fn:' + n, c) if ('fn:' + n) not in _CLS else _CLS.__setitem__('fn!' + n, None)
+                if ('fn:' + c.__name__) not in _CLS: _CLS['fn:' + c.__name__] = c
+                elif _CLS['fn:' + c.__name__] is not c: _CLS['fn!' + c.__name__] = None
     return _CLS
 
 
